@@ -36,6 +36,7 @@ type c10Person struct {
 	DY                   int
 	Place, Occu          string
 	UID                  string // value of a _UID line ("" = none)
+	IDs                  []string // further unique-identifier lines, "TAG value" (_UID, _FSFTID, _FID)
 	// Blank: a placeholder record ("unknown father"): no NAME and no vital date.
 	// 1 = SEX and a NOTE, 2 = nothing but the marker, 3 = a NOTE and a source citation only.
 	Blank int
@@ -246,6 +247,10 @@ func c10PersonFacts(p c10Person, marker string, detail uint32) []*c10Fact {
 	}
 	if p.UID != "" {
 		fs = append(fs, c10F("_UID", p.UID, pick2(8, []*c10Fact{c10F("NOTE", "assigned by program", c10F("DATE", "1 JAN 2001"))})...))
+	}
+	for _, id := range p.IDs { // further unique identifiers: "TAG value"
+		tv := strings.SplitN(id, " ", 2)
+		fs = append(fs, c10F(tv[0], tv[1]))
 	}
 	fs = append(fs, c10F("_MARK", marker))
 	return fs
@@ -1048,7 +1053,7 @@ func c10HasRef(refs [][2]string, rf [2]string) bool {
 
 func init() {
 	runners["C10"] = func(c *Ctx) {
-		c.Rule = "pairs of referentially closed family-graph documents (0..25 people each): base + edited copy with the same / renumbered / reshuffled pointers, dropped and added people, changed facts, shuffled records; disjoint worlds with disjoint or clashing pointers; empty documents; inputs prepared through the API (DeleteNode / SetNodes / AddIndividual / AddFamily / AddChild) and chains of 2-3 merges whose results are edited and merged again; renumbered copies with shared _UIDs, swapped pointers and namesakes; unchanged copies of fully documented families with only non-vital facts edited (weighted similarity 1.0); default, strict (0.95), lenient (0.4) and always-trust-the-pointer (PreferPointerAbove 0) thresholds; library call and query function; distinct = (shape, merged, unmerged, any broken reference)"
+		c.Rule = "pairs of referentially closed family-graph documents (0..25 people each): base + edited copy with the same / renumbered / reshuffled pointers, dropped and added people, changed facts, shuffled records; disjoint worlds with disjoint or clashing pointers; empty documents; inputs prepared through the API (DeleteNode / SetNodes / AddIndividual / AddFamily / AddChild) and chains of 2-3 merges whose results are edited and merged again; renumbered copies with shared _UIDs, swapped pointers and namesakes; unchanged copies of fully documented families with only non-vital facts edited (weighted similarity 1.0); default, strict (0.95), lenient (0.4) and always-trust-the-pointer (PreferPointerAbove 0) thresholds; library call and query function; individuals with two or three unique identifiers (_UID several times, _UID with _FSFTID / _FID) that lead to different individuals of the other document, to the same one or to nobody, carrier on either side; a document of n individuals (pointer, identifier, marker) merged with its re-marked copy for n in 999, 1000, 1001, 2000, 2001, 2002, 2100 (thorough: also 4100, every variant), all matched for certain by _UID or by pointer, through the library (Jobs 0, 2, 4, 16) and q, under a 25 s watchdog with the accounting oracle on the result; distinct = (shape, merged, unmerged, any broken reference)"
 		c.Notes = append(c.Notes,
 			"the matching is read off unique marker lines in the output; who is matched with whom is C11's property, C10 checks that everyone is accounted for whatever the matching",
 			"ConcurrentJobs is left at its default (the data races of the parallel comparison are C11's finding)")
@@ -1080,6 +1085,13 @@ func init() {
 			if k%5 == 0 {
 				c10Wave2(c, k/5)
 			}
+			if k%6 == 0 {
+				l, rt, how := c10MultiUIDPair(c.R)
+				via, minSim := c10Opts(k / 6)
+				c.Count("multi-uid:" + how)
+				c10Run(c, l, rt, "multi-uid", via, minSim)
+			}
 		}
+		c10Large(c)
 	}
 }
